@@ -9,7 +9,7 @@ VERIF = os.path.dirname(os.path.dirname(os.path.abspath(__file__)))
 HARNESS = os.path.join(VERIF, "props", "replay_harness_test.go.txt")
 
 
-def _run(pid, repo, env, seed, budget="20s", only=None):
+def _run(pid, repo, env, seed, budget="20s", only=None, trace=None):
     ov = {"Replace": {os.path.join(repo, "spdxexp", "zz_verif_replay_test.go"): HARNESS}}
     with tempfile.NamedTemporaryFile("w", suffix=".json", delete=False) as f:
         json.dump(ov, f)
@@ -17,6 +17,8 @@ def _run(pid, repo, env, seed, budget="20s", only=None):
     e = dict(env, VERIF_REPLAY_PROP=pid, VERIF_SEED=str(seed), VERIF_REPLAY_BUDGET=budget)
     if only is not None:
         e["VERIF_REPLAY_ONLY"] = json.dumps(only)
+    if trace is not None:
+        e["VERIF_REPLAY_TRACE"] = trace
     extra = ["-race"] if pid == "C13" else []
     try:
         r = subprocess.run(["go", "test", "-overlay", ovp, "-vet=off", "-count=1", "-v"] + extra + ["-timeout", "120s", "-run", "^TestVerifReplay$", "./spdxexp"],
@@ -36,7 +38,28 @@ def _run(pid, repo, env, seed, budget="20s", only=None):
                 return json.loads(line.split("FOUND:", 1)[1]), r.stdout[-2000:]
             except Exception:
                 pass
-    return None, (r.stdout + r.stderr)[-2000:]
+    txt = r.stdout + r.stderr
+    crashed = r.returncode != 0 and ("fatal error:" in txt or "stack overflow" in txt or "panic:" in txt or "signal:" in txt)
+    if crashed and trace is None and pid == "C03":
+        # the test binary died of an error no recover() can catch (stack exhaustion by unbounded recursion): run the same
+        # search again with every call logged before it is made; the last logged call is the failing input
+        tf = tempfile.NamedTemporaryFile("w", suffix=".trace", delete=False)
+        tf.close()
+        try:
+            _run(pid, repo, env, seed, budget=budget, only=only, trace=tf.name)
+            lines = [l for l in open(tf.name).read().splitlines() if l.strip()]
+        finally:
+            os.unlink(tf.name)
+        if lines:
+            try:
+                last = json.loads(lines[-1])
+                i = txt.find("fatal error:")
+                last["observed"] = "the process crashed during this call: " + (txt[i:i + 160].splitlines()[0] if i >= 0 else "fatal error")
+                last["expected"] = "a result or an error value"
+                return last, txt[-2000:]
+            except Exception:
+                pass
+    return None, txt[-2000:]
 
 
 _memo = {}
